@@ -31,6 +31,9 @@ from .. import aflat, common, flat, nfinal, runner
 from ..common import SLOT
 from ..runner import Exploration, Failure
 
+# the one open finding of C18 (known_findings.json F-C18-root-reads-machine-final)
+SIG_ROOT_FINAL = 'C18:_final_check:root-scope-reads-final-attribute-of-the-machine:self-model-with-event-named-final'
+
 WATCH = (SLOT['on_enter'], SLOT['on_final'], SLOT['after'])
 
 
@@ -104,7 +107,7 @@ def describe(p, ans=None):
     if ans is not None:
         out['lean_spec'] = [o - 1 for o in ans['spec'][0]]
         out['lean_code_model'] = 'AttributeError' if ans['code'] is None else [o - 1 for o in ans['code'][0]]
-        out['hypotheses'] = {'enteredWF': ans['wf']}
+        out['hypotheses'] = {'enteredWF': ans['wf'], 'machine_has_attribute_final': p.d.machine_final_attr()}
     return out
 
 
@@ -154,6 +157,16 @@ def settle(pend, ex, fails, keep=3):
             raise common.MachineryError('Python and Lean statements of the fires spec disagree: %r' % describe(p, a))
         if other_exception(p):
             bump(ex.stats, 'features', 'transition_aborted_by_other_exception:' + p.entry['out'][1])
+            kinds = [it[0] for it in p.sg.items]
+            if p.entry['out'][0] == 'raised' and 'enter' in kinds and 'after' not in kinds and 'exit' not in kinds[kinds.index('enter'):]:
+                # every on_enter callback of the transition has run and nothing of a later stage: the exception comes
+                # out of the final check / an on_final callback list (recorders never raise)
+                sig = 'C18.monitor.final-stage-raises'
+                bump(ex.stats, 'monitor_rejections', sig)
+                kept[sig] = kept.get(sig, 0) + 1
+                if kept[sig] <= keep:
+                    p.probs = p.probs + ['an exception is raised in the on_final stage: %s %s' % tuple(p.entry['out'][1:3])]
+                    fails.append(Failure('monitor', 'fires-spec', p.case, describe(p, a), signature=sig))
             continue
         # correspondence: the transcription of _final_check vs the implementation
         got_cbs = [c for _o, c in p.info['got']]
@@ -172,9 +185,13 @@ def settle(pend, ex, fails, keep=3):
         if p.probs:
             pos_only = all(('runs after' in x or 'not between' in x or 'configuration changes' in x) for x in p.probs)
             sig = 'C18.monitor.position' if pos_only else ('C18.monitor.raises' if attr_error(p) else 'C18.monitor')
+            # the open finding: the machine object has an attribute `final` (structural condition) AND the
+            # implementation raises exactly where the transcription of the code says it does
+            if sig == 'C18.monitor.raises' and p.d.machine_final_attr() and a['code'] is None and same:
+                sig = SIG_ROOT_FINAL
             bump(ex.stats, 'monitor_rejections', sig)
             kept[sig] = kept.get(sig, 0) + 1
-            if kept[sig] <= keep:
+            if kept[sig] <= (1 if sig == SIG_ROOT_FINAL else keep):
                 fails.append(Failure('monitor', 'fires-spec', p.case, describe(p, a), signature=sig))
 
 
@@ -776,7 +793,8 @@ class C18(runner.Check):
     level = 'proof'
     theorems = ('TM.C18_flat_exact', 'TM.C18_flat_history', 'TM.C18_flat_final_position',
                 'TM.C18_flat_no_final_otherwise', 'TM.C18_flat_tags_fresh', 'TM.C18_flat_reentrant_exact',
-                'TM.C18_flat_reentrant_event', 'TM.C18_nested_exact', 'TM.C18_nested_calls', 'TM.C18_nested_owner_iff',
+                'TM.C18_flat_reentrant_event', 'TM.C18_nested_exact_partial', 'TM.C18_nested_exact_counterexample',
+                'TM.C18_nested_exact_counterexample_machine_final', 'TM.C18_nested_calls', 'TM.C18_nested_owner_iff',
                 'TM.C18_nested_machine_last', 'TM.C18_nested_children_first', 'TM.C18_nested_once')
     manifest = dict(
         level='proof', design='DESIGN.md 4/C18 + design_notes/C18.md',
@@ -789,9 +807,11 @@ class C18(runner.Check):
              "transition starts exactly its destination's on_enter callbacks, on_final iff THAT destination is final, "
              "its after callbacks, wherever nested events left the model (tags are fresh: C18_flat_tags_fresh). Nested: the transcription of NestedTransition._final_check (loop variable doubling "
              "as return value included) against the declarative fires spec over all configuration trees, flag "
-             "placements and entered sets by structural induction: C18_nested_exact at full strength (the check never "
-             "raises and schedules exactly the owners that fire; states are paths, so copies of an embedded child "
-             "machine's state are distinct), plus children-first / machine-last / once; the "
+             "placements and entered sets by structural induction: C18_nested_exact (the check never raises and "
+             "schedules exactly the owners that fire; states are paths, so copies of an embedded child machine's state "
+             "are distinct) holds for every machine object without an attribute named 'final' (C18_nested_exact_partial); "
+             "open finding F-C18-root-reads-machine-final with proved counterexample (machine as its own model with an "
+             "event named final); plus children-first / machine-last / once; the "
              "defects repaired by 919a36b / 576f1fd / 56c10cf are regression examples in Lean and in the corpus. Tied to /repo by driving HierarchicalMachine and "
              "HierarchicalAsyncMachine on random (depth <= 4, exclusive/parallel/partial-parallel) and all small trees, "
              "observing per executed transition the entered set, configuration and recorder calls (coroutine recorders "
@@ -805,14 +825,18 @@ class C18(runner.Check):
              "configuration are OBSERVED on the implementation (on_enter recorders, model.state), not modelled: how "
              "_resolve_transition computes them is C02/C03's subject; theorem hypothesis enteredWF (entered states are "
              "active afterwards; below an entered state everything active was entered) is checked on every observed "
-             "segment and reported. No open finding: every rejection is a VIOLATION.",
+             "segment and reported. One open finding (F-C18-root-reads-machine-final), classified by signature only when "
+             "the machine object has the attribute AND the implementation raises exactly where the transcription does.",
         technique='Lean 4 proof (mutual structural induction over configuration trees; acceptor analysis for the flat '
                   'engine) + differential correspondence of _final_check + spec monitor on observed transitions, '
                   'exhaustive small scope')
     rule = ('nested: random state trees (1-9 states, depth <= 4, exclusive / parallel / partially parallel / initial-less '
             'compounds, parallel children in declared or permuted order) x arbitrary final flags x 0-2 on_final recorders on '
             'every state and the machine x global and scope-local transitions (reflexive, internal, to ancestors / '
-            'descendants, blocked by conditions) + auto transitions x histories of 2-9 events, alternating '
+            'descendants, blocked by conditions) + auto transitions x histories of 2-9 events; on_final callbacks registered at '
+            'construction, through model methods on_final_<state>, or through machine.on_final_<state>(cb) afterwards (states '
+            'without constructor callbacks get no on_final argument); separate model or the machine as its own model; event '
+            'names incl. \'final\'; optionally a second machine with its own dynamic registration alive; alternating '
             'HierarchicalMachine / HierarchicalAsyncMachine (plain and coroutine recorders); small scope: every ordered '
             'forest with <= N states x every kind of every compound x every final-flag placement x to_Y;to_Z for all '
             'Y,Z; one child machine embedded under several regions; flat: descriptions of harness/flat.py with final states '
@@ -882,7 +906,7 @@ class C18(runner.Check):
         done = set()
         for f in ex.failures:
             key = (f.kind, f.what, f.signature)
-            if key in done:
+            if key in done or f.signature == SIG_ROOT_FINAL:     # the open finding has its minimal witness in the corpus
                 continue
             done.add(key)
             f.case = runner.shrink(f.case, self.fails_like(f), shrink_steps, budget=15 if f.what == 'hang' else 300)
